@@ -28,7 +28,7 @@ func ruleBlockSeek(c *Ctx, r *Rep, tier string) {
 			} else if g := staticCallee(&call.Call); g != nil {
 				name = g.Name()
 			}
-			if name == "Seek" && len(call.Call.Args) >= 1 && strings.HasPrefix(symKey(call), "b.buf") {
+			if name == "Seek" && len(call.Call.Args) >= 1 && strings.HasPrefix(symKey(call), "$0.buf") {
 				seek = call
 			}
 		}
@@ -38,7 +38,7 @@ func ruleBlockSeek(c *Ctx, r *Rep, tier string) {
 	if seek == nil {
 		why = "no Seek of the block's buffer found"
 	} else {
-		if !strings.Contains(symKey(seek), "Seek(offset,0)") {
+		if !strings.Contains(symKey(seek), "Seek($1,0)") {
 			why = "the buffer is positioned with " + symKey(seek) + ", not Seek(offset, 0)"
 		}
 		allInstrs(fn, func(ins ssa.Instruction) {
@@ -61,7 +61,7 @@ func ruleBlockSeek(c *Ctx, r *Rep, tier string) {
 			return
 		}
 		why = ""
-		if symKey(st.Val) != "offset" {
+		if symKey(st.Val) != "$1" {
 			why = "offset.Block is set to " + symKey(st.Val)
 		}
 		ok = false
@@ -286,17 +286,48 @@ func ruleEvictMatch(c *Ctx, r *Rep, tier string) {
 func ruleChunkClamp(c *Ctx, r *Rep, tier string) {
 	rule := "CHUNK-CLAMP"
 	fn := c.Func("bgzf/index", "(*ChunkReader).Read")
+	// the cursor is the loop-free join that is subtracted inside the bound of the
+	// slice handed to the underlying Read (found by that role, not by its name)
 	var cur *ssa.Phi
 	allInstrs(fn, func(ins ssa.Instruction) {
-		if p, ok := ins.(*ssa.Phi); ok && p.Comment == "cursor" {
-			cur = p
+		call, ok := ins.(*ssa.Call)
+		if !ok || len(call.Call.Args) < 1 {
+			return
 		}
+		if g := staticCallee(&call.Call); g == nil || g.Name() != "Read" {
+			return
+		}
+		sl, ok := call.Call.Args[len(call.Call.Args)-1].(*ssa.Slice)
+		if !ok || sl.High == nil {
+			return
+		}
+		var walk func(v ssa.Value, d int)
+		walk = func(v ssa.Value, d int) {
+			if d > 6 {
+				return
+			}
+			switch x := v.(type) {
+			case *ssa.BinOp:
+				if p, isPhi := x.Y.(*ssa.Phi); isPhi && x.Op == token.SUB {
+					cur = p
+				}
+				walk(x.X, d+1)
+				walk(x.Y, d+1)
+			case *ssa.Call:
+				for _, a := range x.Call.Args {
+					walk(a, d+1)
+				}
+			case *ssa.Convert:
+				walk(x.X, d+1)
+			}
+		}
+		walk(sl.High, 0)
 	})
 	// the local `last` holds the reader's LastChunk() taken on entry
 	lastIsLastChunk := false
 	allInstrs(fn, func(ins ssa.Instruction) {
 		if st, ok := ins.(*ssa.Store); ok {
-			if al, ok := st.Addr.(*ssa.Alloc); ok && al.Comment == "last" && strings.HasSuffix(symKey(st.Val), ".LastChunk()") && singleStore(al) != nil {
+			if al, ok := st.Addr.(*ssa.Alloc); ok && strings.HasSuffix(symKey(st.Val), ".LastChunk()") && singleStore(al) != nil {
 				lastIsLastChunk = true
 			}
 		}
@@ -304,7 +335,7 @@ func ruleChunkClamp(c *Ctx, r *Rep, tier string) {
 	r.Instance(rule, 1)
 	why := ""
 	if cur == nil {
-		why = "no variable 'cursor' joining the two cases found"
+		why = "nothing is subtracted in the bound of the slice handed to Read: the reader's in-block position is not taken into account"
 	} else {
 		for i, e := range cur.Edges {
 			if k, ok := constInt(e); ok && k == 0 {
@@ -329,7 +360,7 @@ func ruleChunkClamp(c *Ctx, r *Rep, tier string) {
 				pos := func(k string) bool {
 					return strings.HasSuffix(k, ".LastChunk().End.File") || (k == "last.End.File" && lastIsLastChunk)
 				}
-				end := func(k string) bool { return k == "r.chunks[0].End.File" }
+				end := func(k string) bool { return k == "$0.chunks[0].End.File" }
 				if !((pos(kx) && end(ky)) || (pos(ky) && end(kx))) {
 					continue
 				}
@@ -362,7 +393,7 @@ func ruleChunkClamp(c *Ctx, r *Rep, tier string) {
 		ub := upperBounds(sl.High, 0)
 		want := false
 		for k := range ub {
-			if strings.Contains(k, "phi:cursor") && strings.Contains(k, "-1·") {
+			if cur != nil && strings.Contains(k, "-1·"+symKey(cur)) {
 				want = true
 			}
 		}
@@ -393,7 +424,7 @@ func ruleSetChunkSeeks(c *Ctx, r *Rep, tier string) {
 			return false
 		}
 		g := staticCallee(&call.Call)
-		return g != nil && g.Name() == "Seek" && strings.HasSuffix(symKey(call), ".Seek(c.Begin)")
+		return g != nil && g.Name() == "Seek" && strings.HasSuffix(symKey(call), ".Seek($1.Begin)")
 	}
 	var store ssa.Instruction
 	allInstrs(fn, func(ins ssa.Instruction) {
@@ -404,20 +435,25 @@ func ruleSetChunkSeeks(c *Ctx, r *Rep, tier string) {
 		}
 	})
 	why := ""
+	anchored := false
 	if store == nil {
 		why = "SetChunk does not store the chunk"
 	} else {
 		// from the c != nil edge
 		for _, b := range fn.Blocks {
-			ce, ok := classifyErrIf(b, func(v ssa.Value) bool { return symKey(v) == "c" })
+			ce, ok := classifyErrIf(b, func(v ssa.Value) bool { return symKey(v) == "$1" })
 			if !ok || !ce.isNil {
 				continue
 			}
+			anchored = true
 			start := Loc{b.Succs[1-ce.yes], -1}
 			if bad, found := pathTo(start, is(store), isSeek, nil); found {
 				why = fmt.Sprintf("with a non-nil chunk the assignment at %s is reachable without Seek(c.Begin): a reader positioned inside the chunk keeps its position and the records between the chunk's Begin and that position are never returned", c.Pos(bad.Pos()))
 			}
 		}
+	}
+	if why == "" && !anchored {
+		why = "no test of the chunk argument against nil found: the rule's anchor moved (undecided)"
 	}
 	r.Check(why == "", rule, "bam.(*Reader).SetChunk#seek-begin", c.Pos(fn.Pos()), "every path with a chunk passes Seek(c.Begin) before br.c = c", why)
 }
@@ -553,13 +589,13 @@ func ruleBaseDropsData(c *Ctx, r *Rep, tier string) {
 	fn := c.Func("bgzf", "(*block).setBase")
 	effs := effectsOf(fn)
 	r.Instance(rule, 1)
-	ok := hasEff(effs, "store", "b.buf", "nil") != nil && hasEff(effs, "store", "b.base", "n") != nil
+	ok := hasEff(effs, "store", "$0.buf", "nil") != nil && hasEff(effs, "store", "$0.base", "$1") != nil
 	r.Check(ok, rule, "bgzf.(*block).setBase#invalidates", c.Pos(fn.Pos()), "b.base = n together with b.buf = nil", "setBase re-targets the block but keeps the previous member's data: after a failed read the block looks like a valid block of the new base (wrong bytes after a retried Seek; cacheable)")
 	// hasData is what the shortcuts test
 	r.Instance(rule, 1)
 	hd := c.Func("bgzf", "(*block).hasData")
 	sr := symExec(hd, map[string]int64{})
-	r.Check(len(sr.RetKeys) == 1 && sr.RetKeys[0] == "(b.buf!=nil)", rule, "bgzf.(*block).hasData#buf", c.Pos(hd.Pos()), "hasData() = (b.buf != nil)", "hasData is "+strings.Join(sr.RetKeys, ",")+": the invalidation by setBase is not what the reader's shortcuts look at")
+	r.Check(len(sr.RetKeys) == 1 && sr.RetKeys[0] == "($0.buf!=nil)", rule, "bgzf.(*block).hasData#buf", c.Pos(hd.Pos()), "hasData() = (b.buf != nil)", "hasData is "+strings.Join(sr.RetKeys, ",")+": the invalidation by setBase is not what the reader's shortcuts look at")
 }
 
 // ruleSeekRedirect (SEEK-REDIRECT): when Reader.Seek replaces the current block
@@ -578,7 +614,7 @@ func ruleSeekRedirect(c *Ctx, r *Rep, tier string) {
 			if g := staticCallee(&call.Call); g != nil && g.Name() == "cacheSwap" {
 				swap = call
 			}
-			if symKey(call) == "bg.current.seek(off.Block)" {
+			if symKey(call) == "$0.current.seek($1.Block)" {
 				final = call
 			}
 		}
